@@ -36,9 +36,9 @@ func register(c *Check) {
 		c.Technique += "; must-lockset with helper entry locksets against a may-acquire-first summary (no re-entrant mutex acquisition, also through String/Error methods handed to fmt or a logger)"
 	}
 	if from := depSources[c.ID]; len(from) > 0 {
-		c.Pkgs = withDeps(c.Pkgs)
-		c.Explanation += " " + depExplanation
-		c.Technique += "; contracts of the repository's own trusted helpers (error classes, errors.Is, chans.IsOpened, cast.Ptr) decided on the helpers' bodies by path enumeration"
+		c.Pkgs = withDepsV(c.ID, c.Pkgs)
+		c.Explanation += " " + depExplanationV(c.ID)
+		c.Technique += depTechniqueV(c.ID)
 	}
 	registry[c.ID] = c
 }
